@@ -1,6 +1,10 @@
 package main
 
-import "github.com/bytedance/sonic/verifbridge"
+import (
+	"github.com/bytedance/sonic/verifbridge"
+
+	"verifharness/gen"
+)
 
 func bridgeConfig() map[string]string { return verifbridge.Config() }
 
@@ -9,3 +13,45 @@ var (
 	isVM     = verifbridge.Config()["vm"] == "1"
 	isSSE    = verifbridge.Config()["native"] == "sse"
 )
+
+// hookSchedule configures the library's schedule points (verifhook, build tag
+// verif) for one case. The choice comes from a generator that is independent of
+// the case's own, so the case contents are what they were without the hooks.
+// The returned function switches the actions off again and adds the arrivals
+// seen meanwhile to the evidence counters (arrivals are not counted in
+// race-detector builds, see internal/verifhook/counting_race.go).
+func hookSchedule(c *Ctx, i int, names []string) func() {
+	hr := gen.New(gen.Mix(c.Seed, gen.HashString("hooks"), gen.HashString(c.Prop), uint64(c.Batch)), uint64(i)+1)
+	before := verifbridge.HookCounts()
+	sig := "none"
+	switch hr.Intn(5) {
+	case 0, 1:
+	case 2:
+		sig = "yield_everywhere"
+		for _, n := range names {
+			verifbridge.HookSet(n, "yield", 0, 1)
+		}
+	case 3:
+		n := names[hr.Intn(len(names))]
+		sig = "sleep_at_" + n
+		verifbridge.HookSet(n, "sleep", uint32(hr.Range(5, 300)), 1)
+	case 4:
+		sig = "short_sleep_everywhere_every_2nd"
+		for _, n := range names {
+			verifbridge.HookSet(n, "sleep", uint32(hr.Range(5, 60)), 2)
+		}
+	}
+	c.Count("hook_schedule_"+sig, 1)
+	return func() {
+		verifbridge.HookReset()
+		after := verifbridge.HookCounts()
+		for _, n := range names {
+			if d := after[n] - before[n]; d > 0 {
+				c.Count("hook_arrivals_"+n, int64(d))
+			}
+		}
+	}
+}
+
+var pcacheHooks = []string{"pcache_double_check_hit", "pcache_before_compute", "pcache_before_publish"}
+var astHooks = []string{"ast_parse_raw_lost", "ast_before_assign", "ast_assign_mid", "ast_raw_locked"}
